@@ -171,8 +171,8 @@ FAMS_FOR = {
     "C09": ["AMBIG", "PIN", "DBLPIN", "PROMO", "EPX", "EPEDGE", "EPCHKX", "DBLCHK", "MULTICHK", "CASTLE", "EPEVADE", "ONLYEPCHKPRE"],
     "C10": ["EPX", "EPEDGE", "CASTLE", "PROMO", "BATTERY", "EPEVADE"],
     "C11": ["RAW", "EPEDGE", "CASTLE"],
-    "C18": ["EP", "ONLYEP", "CASTLE", "ROOKCAP", "MAT", "MINOR", "PIN", "CHK", "EDGEPAWN"],
-    "C14": ["STALEMIN", "MINOR", "MAT", "ONLYDBL", "PINMATE", "ONLYPROMO"],
+    "C18": ["EP", "ONLYEP", "CASTLE", "ROOKCAP", "MAT", "MINOR", "PIN", "CHK", "EDGEPAWN", "PROMO", "MULTICHK"],
+    "C14": ["STALEMIN", "MINOR", "MAT", "ONLYDBL", "PINMATE", "ONLYPROMO", "ONLYEPCHK", "PROMO"],
     "C17": ["PROMO", "AMBIG", "CASTLE"],
     "C19": ["CHK", "AMBIG", "MULTICHK", "EPEDGE"],
     "C02": ["EPX", "EPEDGE", "ONLYEP", "PROMO", "ROOKCAP", "CASTLE", "PIN", "EPEVADE"],
@@ -187,8 +187,9 @@ FAM_STRIDE_FOR = {
     "C01": {"MULTICHK": (2500, 40)},
     "C07": {"MULTICHK": (2500, 40)},
     "C19": {"MULTICHK": (1500, 20)},
+    "C18": {"MULTICHK": (2500, 40)},
     "C09": {"ONLYEPCHKPRE": (20, 2), "EPEVADE": (300, 10), "DBLCHK": (2, 1), "MULTICHK": (2500, 40)},
-    "C14": {"ONLYDBL": (12, 1), "PINMATE": (120, 4), "ONLYPROMO": (800, 16)},
+    "C14": {"ONLYDBL": (12, 1), "PINMATE": (120, 4), "ONLYPROMO": (800, 16), "ONLYEPCHK": (40, 4), "PROMO": (30, 3)},
     "C04": {"CASTLE": (80, 4), "CASTLEEP": (1, 1), "PROMOEP": (3, 1)},
     "C05": {"CASTLE": (80, 4), "CASTLEEP": (1, 1), "PROMOEP": (3, 1)},
     "C02": {"EPEVADE": (600, 40), "EPX": (60, 8), "EPEDGE": (6, 2), "ONLYEP": (60, 8), "PROMO": (20, 2), "ROOKCAP": (4, 1), "CASTLE": (300, 30), "PIN": (2000, 200)},
